@@ -2813,9 +2813,13 @@ struct has_get_header<
 template<
     typename View,
     typename = detail::enable_if_t<detail::has_get_header<View>::value>>
-constexpr std::size_t get_header_size(View view) noexcept
+constexpr std::size_t get_header_size(View) noexcept
 {
-    return sbepp::size_bytes(sbepp::get_header(view));
+    // header size is static, don't touch the actual header because
+    // `get_header()` asserts that it fits into the buffer while this function
+    // is used to check exactly that
+    return sbepp::size_bytes(
+        decltype(sbepp::get_header(std::declval<View>())){});
 }
 
 template<
